@@ -18,7 +18,9 @@ import (
 // ---------------------------------------------------------------- case format
 
 type BOp struct {
-	O    string  `json:"o"` // ts rts clr nd
+	O    string  `json:"o"` // ts rts clr nd | mts (ts.T = t) | enc (Bytes) | fil (MakePretendPacket(seq, n).Bytes)
+	Seq  int64   `json:"seq,omitempty"`
+	N    int     `json:"n,omitempty"`
 	T    uint64  `json:"t,omitempty"`
 	Rate float64 `json:"rate,omitempty"`
 	W    int     `json:"w,omitempty"` // nd: 2 4 8 = []int16/32/64; 0 = int; 1 = []uint16
@@ -104,6 +106,11 @@ func field(p *packets.Packet, name string) reflect.Value {
 // observe renders the accessor observations of p as a Coq `aobs`; ok=false if an accessor that has no
 // panic representation (Timestamp, IsExternalTrigger, Length, SequenceNumber, reflection) panicked.
 func observe(p *packets.Packet, reads []int64, pret [][2]int, tags map[string]bool) (term string, ok bool) {
+	return observeOpt(p, reads, pret, tags, false)
+}
+
+// observeOpt: lean = only the given probes (none derived from Frames()/ChannelInfo())
+func observeOpt(p *packets.Packet, reads []int64, pret [][2]int, tags map[string]bool, lean bool) (term string, ok bool) {
 	defer func() {
 		if e := recover(); e != nil {
 			term, ok = "", false
@@ -163,8 +170,10 @@ func observe(p *packets.Packet, reads []int64, pret [][2]int, tags map[string]bo
 
 	// ReadValue probes: the given ones plus the edges of [0, Frames())
 	rs := append([]int64{}, reads...)
-	rs = append(rs, -1, 0)
-	if frames != nil {
+	if !lean {
+		rs = append(rs, -1, 0)
+	}
+	if frames != nil && !lean {
 		rs = append(rs, int64(*frames)-1, int64(*frames))
 		if *frames > 0 {
 			tags["frames>0"] = true
@@ -178,7 +187,7 @@ func observe(p *packets.Packet, reads []int64, pret [][2]int, tags map[string]bo
 	}
 	// MakePretendPacket probes: the given ones plus (seq+1, nchan)
 	ps := append([][2]int{}, pret...)
-	if chanOK {
+	if chanOK && !lean {
 		ps = append(ps, [2]int{int(seq + 1), nchan})
 	}
 	if dcount > 300 && len(ps) > 1 {
@@ -214,6 +223,10 @@ func observe(p *packets.Packet, reads []int64, pret [][2]int, tags map[string]bo
 
 // decode runs ReadPacket on b and renders the `dobs`
 func decode(b []byte, reads []int64, pret [][2]int, tags map[string]bool) (term string, summary string) {
+	return decodeOpt(b, reads, pret, tags, false)
+}
+
+func decodeOpt(b []byte, reads []int64, pret [][2]int, tags map[string]bool, lean bool) (term string, summary string) {
 	rdr := bytes.NewReader(b)
 	var p *packets.Packet
 	var err error
@@ -239,7 +252,7 @@ func decode(b []byte, reads []int64, pret [][2]int, tags map[string]bool) (term 
 		return "ODPanic", "nil packet without error"
 	}
 	tags["decode-ok"] = true
-	a, ok := observe(p, reads, pret, tags)
+	a, ok := observeOpt(p, reads, pret, tags, lean)
 	if !ok {
 		tags["accessor-panic"] = true
 		return "ODPanic", "accessor panic"
@@ -315,13 +328,105 @@ func dataArg(op BOp) (arg interface{}, term string) {
 	}
 }
 
+// encodeObs calls q.Bytes() (under recover and a watchdog: the call takes microseconds, 20 s means it never
+// returns) and decodes the result; renders `HEnc num denom (res bobs)`.  lean = no extra probes.
+func encodeObs(q *packets.Packet, reads []int64, pret [][2]int, lean bool, tags map[string]bool) (term string, summary string, decoded bool) {
+	acc, ok := observeOpt(q, reads, pret, map[string]bool{}, lean)
+	if !ok {
+		return "HEnc 0 0 P", "accessor of the encoded packet panicked", false
+	}
+	type bres struct {
+		b  []byte
+		ok bool
+	}
+	ch := make(chan bres, 1)
+	go func() {
+		defer func() {
+			if e := recover(); e != nil {
+				ch <- bres{nil, false}
+			}
+		}()
+		ch <- bres{q.Bytes(), true}
+	}()
+	var br bres
+	select {
+	case br = <-ch:
+	case <-time.After(20 * time.Second):
+		tags["bytes-hang"] = true
+		br = bres{nil, false}
+	}
+	if br.ok && len(br.b) > maxRendered {
+		// no datagram is longer than 255 + 65535 bytes and Coq cannot parse list literals much longer than
+		// this: a longer output is cut (Run.v cuts the model's output at the same length)
+		tags["bytes-cut"] = true
+		br.b = br.b[:maxRendered]
+	}
+	if !br.ok {
+		tags["bytes-panic-or-hang"] = true
+		return fmt.Sprintf("HEnc 0 0 (Ok (B %s P ODPanic))", acc), "Bytes() panicked or never returned", false
+	}
+	num, denom := 0, 0
+	if q.Timestamp() != nil && len(br.b) >= 40 {
+		num = int(br.b[28])<<8 | int(br.b[29])
+		denom = int(br.b[30])<<8 | int(br.b[31])
+	}
+	dtags := map[string]bool{}
+	var dec string
+	if lean {
+		dec, summary = decodeOpt(br.b, nil, nil, dtags, true)
+	} else {
+		dec, summary = decodeOpt(br.b, reads, pret, dtags, false)
+	}
+	return fmt.Sprintf("HEnc %d %d (Ok (B %s (Ok %s) %s))", num, denom, acc, lib.ZListBytes(br.b), dec),
+		fmt.Sprintf("%d bytes, decode %s", len(br.b), summary), dtags["decode-ok"]
+}
+
+// runBuild runs a history on one packet object: constructor calls, changes of the time-stamp object the
+// caller handed over, encodings at any point, filler packets made from it and encoded; a final encoding
+// (with the item's probes) is always appended.
 func runBuild(it Item, tags map[string]bool) (string, itemOut, bool) {
 	tags["src-build"] = true
 	out := itemOut{Kind: "build"}
 	p := packets.NewPacket(uint8(it.V), it.Sid, it.Seq, int(it.Off))
-	var opterms []string
+	var lastTS *packets.PacketTimestamp
+	var hterms []string
 	panicked, errored, hasData, hasTS := false, false, false, false
+	encodings := 0
 	for _, op := range it.Bops {
+		switch op.O {
+		case "enc":
+			t, sum, _ := encodeObs(p, nil, nil, true, tags)
+			hterms = append(hterms, "(HEncode, "+t+")")
+			out.Rets = append(out.Rets, "enc: "+sum)
+			encodings++
+			if encodings > 1 {
+				tags["encode-again"] = true
+			}
+			continue
+		case "fil":
+			var q *packets.Packet
+			func() {
+				defer func() {
+					if e := recover(); e != nil {
+						q = nil
+					}
+				}()
+				q = p.MakePretendPacket(uint32(op.Seq), op.N)
+			}()
+			key := fmt.Sprintf("HFiller %s %s", lib.Z(int64(uint32(op.Seq))), lib.Z(int64(op.N)))
+			if q == nil {
+				hterms = append(hterms, "("+key+", HEnc 0 0 P)")
+				out.Rets = append(out.Rets, "filler: panic")
+				continue
+			}
+			t, sum, _ := encodeObs(q, nil, nil, true, tags)
+			hterms = append(hterms, "("+key+", "+t+")")
+			out.Rets = append(out.Rets, "filler: "+sum)
+			if encodings > 0 {
+				tags["filler-after-encode"] = true
+			}
+			continue
+		}
 		var err error
 		var opterm string
 		func() {
@@ -333,8 +438,17 @@ func runBuild(it Item, tags map[string]bool) (string, itemOut, bool) {
 			switch op.O {
 			case "ts":
 				opterm = fmt.Sprintf("BSetTs %s 0", lib.ZU(op.T))
-				err = p.SetTimestamp(&packets.PacketTimestamp{T: op.T, Rate: op.Rate})
+				lastTS = &packets.PacketTimestamp{T: op.T, Rate: op.Rate}
+				err = p.SetTimestamp(lastTS)
 				hasTS = true
+			case "mts":
+				opterm = fmt.Sprintf("BMutTs %s", lib.ZU(op.T))
+				if lastTS != nil {
+					lastTS.T = op.T
+					if encodings > 0 && hasTS {
+						tags["timestamp-advanced-after-encode"] = true
+					}
+				}
 			case "rts":
 				opterm = "BResetTs"
 				err = p.ResetTimestamp()
@@ -358,6 +472,9 @@ func runBuild(it Item, tags map[string]bool) (string, itemOut, bool) {
 					if len(dims) > 1 {
 						tags["build-multi-dim"] = true
 					}
+					if encodings > 0 {
+						tags["newdata-after-encode"] = true
+					}
 				}
 			}
 		}()
@@ -371,62 +488,19 @@ func runBuild(it Item, tags map[string]bool) (string, itemOut, bool) {
 			tags["constructor-error"] = true
 		}
 		out.Rets = append(out.Rets, ret)
-		opterms = append(opterms, fmt.Sprintf("(%s, %s)", opterm, ret))
+		hterms = append(hterms, fmt.Sprintf("(HOp (%s), HRet %s)", opterm, ret))
 		if panicked {
 			break
 		}
 	}
-	head := fmt.Sprintf("IBuild %d %d %d %s %s", uint8(it.V), it.Sid, it.Seq, lib.Z(it.Off), lib.List(opterms))
+	head := fmt.Sprintf("IBuild %d %d %d %s ", uint8(it.V), it.Sid, it.Seq, lib.Z(it.Off))
 	if panicked {
 		out.Summary = "constructor panicked"
-		return head + " 0 0 P", out, false
+		return head + lib.List(hterms), out, false
 	}
-	acc, ok := observe(p, it.Reads, it.Pret, map[string]bool{})
-	if !ok {
-		out.Summary = "accessor of the built packet panicked"
-		return head + " 0 0 P", out, false
-	}
-	// Bytes() under recover and a watchdog (a call that takes microseconds; 20 s means it never returns)
-	type bres struct {
-		b  []byte
-		ok bool
-	}
-	ch := make(chan bres, 1)
-	go func() {
-		defer func() {
-			if e := recover(); e != nil {
-				ch <- bres{nil, false}
-			}
-		}()
-		ch <- bres{p.Bytes(), true}
-	}()
-	var br bres
-	select {
-	case br = <-ch:
-	case <-time.After(20 * time.Second):
-		tags["bytes-hang"] = true
-		br = bres{nil, false}
-	}
-	if br.ok && len(br.b) > maxRendered {
-		// no datagram is longer than 255 + 65535 bytes and Coq cannot parse list literals much longer than
-		// this: a longer output is cut (Run.v cuts the model's output at the same length)
-		tags["bytes-cut"] = true
-		br.b = br.b[:maxRendered]
-	}
-	if !br.ok {
-		tags["bytes-panic-or-hang"] = true
-		out.Summary = "Bytes() panicked or never returned"
-		return fmt.Sprintf("%s 0 0 (Ok (B %s P ODPanic))", head, acc), out, false
-	}
-	num, denom := 0, 0
-	if hasTS && len(br.b) >= 40 {
-		num = int(br.b[28])<<8 | int(br.b[29])
-		denom = int(br.b[30])<<8 | int(br.b[31])
-	}
-	dtags := map[string]bool{}
-	dec, summary := decode(br.b, it.Reads, it.Pret, dtags)
-	out.Summary = "bytes " + summary
-	out.NBytes = len(br.b)
+	t, sum, decoded := encodeObs(p, it.Reads, it.Pret, false, tags)
+	hterms = append(hterms, "(HEncode, "+t+")")
+	out.Summary = "final encoding: " + sum
 	if !errored {
 		tags["build-ok"] = true
 		if hasData {
@@ -435,12 +509,11 @@ func runBuild(it Item, tags map[string]bool) (string, itemOut, bool) {
 		if hasTS {
 			tags["build-with-timestamp"] = true
 		}
-		if dtags["decode-ok"] {
+		if decoded {
 			tags["roundtrip-decoded"] = true
 		}
 	}
-	term := fmt.Sprintf("%s %d %d (Ok (B %s (Ok %s) %s))", head, num, denom, acc, lib.ZListBytes(br.b), dec)
-	return term, out, !errored && hasData
+	return head + lib.List(hterms), out, !errored && hasData
 }
 
 func runCase(c Case) lib.Result {
